@@ -350,7 +350,9 @@ func Run(r *hx.Run, replay []hx.Case) {
 	txt := contents(r, true)
 	bin := contents(r, false)
 	pick := func(l [][]byte) []byte { return l[r.Rng.Intn(len(l))] }
-	names := []string{"a.bin", "report final.pdf", "na\xc3\xafve r\xc3\xa9sum\xc3\xa9.txt", "semi;colon=x.txt", "quote\"d.txt", "UPPER.TXT"}
+	names := []string{"a.bin", "report final.pdf", "na\xc3\xafve r\xc3\xa9sum\xc3\xa9.txt", "semi;colon=x.txt", "quote\"d.txt", "UPPER.TXT",
+		// blanks and format characters outside ASCII (no-break space, ideographic space, ZWNJ, soft hyphen): not touched by the documented sanitiser
+		"no\xc2\xa0break.txt", "ideo\xe3\x80\x80space.pdf", "zw\xe2\x80\x8cnj.bin", "soft\xc2\xadhyphen.txt", "latin1-\xe9-not-utf8.bin"}
 	emit := func(n, e, a int, msgenc string, ci int) {
 		var ps, es, as []string
 		for i := 0; i < n; i++ {
